@@ -132,6 +132,22 @@ def split_program(rec):
 
 # ----------------------------------------------------------------------------- observation
 
+_FAST = [False]
+
+
+def speedup():
+    """DIP() / add_string() / add_file() call inspect.stack() only to record which script created them
+    (several ms per call).  Give them a constant caller; nothing observable here depends on it."""
+    if _FAST[0]:
+        return
+    import collections
+    from scinumtools.dip import dip as M
+    FI = collections.namedtuple("FI", "filename lineno")
+    M.stack = lambda: [(None,), (None,)]
+    M.getframeinfo = lambda frame: FI(__file__, 1)
+    _FAST[0] = True
+
+
 def _plain(v):
     import numpy as np
     if isinstance(v, np.ndarray):
@@ -174,6 +190,7 @@ def run_program(rec, style, scratch):
     """Execute one abstract program on the real DIP.  -> observation dict
        {st: ok|rej|unreadable, data, err, texts, side: {before, after}}"""
     from scinumtools.dip import DIP
+    speedup()
     first, second = split_program(rec)
     mode = rec["mode"]
     obs = {"st": "ok", "data": None, "err": None, "texts": [], "side": None}
